@@ -28,6 +28,7 @@ func c07(c *Ctx) {
 		"(closed) Write after Close fails and Close is idempotent; " +
 		"(retry) the keyset-level reader rewinds the replay buffer on every path on which a candidate key consumed input and failed, before the next candidate is tried, and reports failure when no candidate matched. " +
 		"(buffered) every segment the writer hands to the segment encrypter is its own buffer from offset 0 (to plaintextPos in Close), or caller memory only under a dominating plaintextPos == 0 — bytes buffered by earlier calls cannot be skipped. " +
+		"(fullread) no Read on an underlying reader has its byte count discarded; (replay) the replaying wrapper of the keyset-level reader records everything it reads while replay is enabled, on every return path. " +
 		"Not decided: buffer arithmetic across call boundaries (chunking independence), format interoperability."
 	c07SegAuth(c)
 	c07Release(c)
@@ -36,6 +37,8 @@ func c07(c *Ctx) {
 	c07Closed(c)
 	c07Retry(c)
 	c07Buffered(c)
+	c07FullRead(c)
+	c07Replay(c)
 }
 
 func c07SegAuth(c *Ctx) {
